@@ -46,7 +46,10 @@ def main() -> int:
                 print(f"{sid} vs {c}: MISSED")
                 rc = 1
             else:
-                print(f"{sid} vs {c}: rc={p.returncode} {out.strip().splitlines()[-1][:200] if out.strip() else ''}")
+                # the last line that says something (Python's resource tracker prints KeyError tracebacks of its own at exit)
+                lines = [l for l in out.strip().splitlines() if l.startswith(("HARNESS-ERROR", "harness", "C0", "C1")) or "Error:" in l]
+                lines = [l for l in lines if not l.startswith("KeyError: '/")] or out.strip().splitlines()[-1:]
+                print(f"{sid} vs {c}: rc={p.returncode} {lines[-1][:200] if lines else ''}")
                 rc = 1
         return rc
     finally:
